@@ -338,7 +338,7 @@ func c15(r *vc.Run) int {
 		rng := r.Rand("plan", i)
 		useHQ := i%4 != 3
 		sc := c15Scenario{Seed: r.Seed, Index: i, NPages: 14 + rng.Intn(14), MaxHops: 2,
-			Cfg: pipeConfig{Workers: 1 + rng.Intn(4), MaxConcurrentAssets: 2, MaxHops: 2, MaxRetry: 0, MaxRedirect: 5, WARCPoolSize: 1, UseHQ: useHQ, HQBatchSize: []int{2, 5, 100}[i%3], DisableSeencheck: !useHQ && i%8 == 3}}
+			Cfg: pipeConfig{Workers: 1 + rng.Intn(4), MaxConcurrentAssets: 2, MaxHops: 2, MaxRetry: 0, MaxRedirect: 5, WARCPoolSize: 1, UseHQ: useHQ, HQBatchSize: []int{2, 5, 100}[i%3], HQBatchConcurrency: 1 + (i/3)%2, DisableSeencheck: !useHQ && i%8 == 3}}
 		if useHQ {
 			kinds := []string{"add", "delete", "get"}
 			whats := []string{"500", "502", "503", "reset", "stall"}
@@ -366,13 +366,13 @@ func c15(r *vc.Run) int {
 		if scs[i].Cfg.UseHQ {
 			mode = "hq"
 		}
-		absorb(r, m, res, fmt.Sprintf("run%d[%s faults=%v batch=%d]", i, mode, scs[i].Faults, scs[i].Cfg.HQBatchSize), scs[i], true)
+		absorb(r, m, res, fmt.Sprintf("run%d[%s faults=%v batch=%d get-concurrency=%d]", i, mode, scs[i].Faults, scs[i].Cfg.HQBatchSize, scs[i].Cfg.HQBatchConcurrency), scs[i], true)
 		os.RemoveAll(dir)
 	})
 	cov := map[string]any{
 		"evaluations":         m.Events["outlinks_expected"] + m.Events["seeds_handed_out"] + m.Events["lq_rows_consumed"],
 		"distinct_nontrivial": len(m.Distinct),
-		"rule":                "one evaluation = one delivery obligation (a planted outlink of a crawled page below the hop limit, a seed handed out by the queue that must be acknowledged, a queue row that must carry value/via/hops) in a full-pipeline run; HQ runs use the real gocrawlhq client against the HQ double with a seeded fault script (5xx, connection reset, 6 s stall on the k-th add/delete/get, failure streaks) and batch size in {2,5,100}; distinct = distinct (fault kind x call kind) and (hops, delivered) classes",
+		"rule":                "one evaluation = one delivery obligation (a planted outlink of a crawled page below the hop limit, a seed handed out by the queue that must be acknowledged, a queue row that must carry value/via/hops) in a full-pipeline run; HQ runs use the real gocrawlhq client against the HQ double with a seeded fault script (5xx, connection reset, 6 s stall on the k-th add/delete/get, failure streaks) batch size in {2,5,100} and get concurrency in {1,2}; distinct = distinct (fault kind x call kind) and (hops, delivered) classes",
 		"samples":             []any{scs[1], scs[min(3, len(scs)-1)]},
 		"events":              m.Events,
 		"pipeline_runs":       m.Children,
